@@ -13,7 +13,7 @@ From Dagrt Require Import GenC18 Collapse CollapseProofs.
    do not occur in the expression, every new variable is assigned exactly once and the
    rewritten expression, with the hoisted terms substituted back or bound in order, has the
    value of the original under every valuation and every interpretation of quotient, power,
-   logical not and the function symbols. *)
+   logical not and the function symbols (calls with keyword arguments included). *)
 Definition C18_full_statement : Prop :=
   forall (fresh : nat -> string) (free : list string) (e : expr),
     wfb e = true ->
@@ -23,9 +23,9 @@ Definition C18_full_statement : Prop :=
       (NoDup (map fresh (seq 0 n)) ->
        (forall i, i < n -> ~ In (fresh i) (names e)) ->
        NoDup (map fst asg) /\ map fst asg = map fresh (seq 0 n) /\
-       forall qop pop nop F rho,
-         eval qop pop nop F rho (subst asg e') = eval qop pop nop F rho e /\
-         eval qop pop nop F (bind_all qop pop nop F rho asg) e' = eval qop pop nop F rho e).
+       forall qop pop nop F Fk rho,
+         eval qop pop nop F Fk rho (subst asg e') = eval qop pop nop F Fk rho e /\
+         eval qop pop nop F Fk (bind_all qop pop nop F Fk rho asg) e' = eval qop pop nop F Fk rho e).
 
 Theorem C18_full : C18_full_statement.
 Proof. exact (full_flag finder_unary_combines eq_refl). Qed.
@@ -35,9 +35,9 @@ Theorem C18_value : forall fresh free e e' asg n,
   collapse finder_unary_combines fresh free e = Ok (e', asg, n) ->
   NoDup (map fresh (seq 0 n)) ->
   (forall i, i < n -> ~ In (fresh i) (names e)) ->
-  forall qop pop nop F rho,
-    eval qop pop nop F (bind_all qop pop nop F rho asg) e' = eval qop pop nop F rho e /\
-    eval qop pop nop F rho (subst asg e') = eval qop pop nop F rho e.
+  forall qop pop nop F Fk rho,
+    eval qop pop nop F Fk (bind_all qop pop nop F Fk rho asg) e' = eval qop pop nop F Fk rho e /\
+    eval qop pop nop F Fk rho (subst asg e') = eval qop pop nop F Fk rho e.
 Proof. exact (collapse_value_flag finder_unary_combines eq_refl). Qed.
 Print Assumptions C18_value.
 
